@@ -90,6 +90,12 @@ impl WriteSource for pr::ExprKind {
     fn write(&self, mut opt: WriteOpt) -> Option<String> {
         use pr::ExprKind::*;
 
+        // Operand position only describes the direct operands of a binary
+        // operator; it must not leak into the children of other nodes.
+        if !matches!(self, Binary(_)) {
+            opt.binary_position = super::Position::Unspecified;
+        }
+
         match &self {
             Ident(ident) => Some(ident.to_string()),
 
